@@ -22,7 +22,8 @@ symbol classification and the JS label frames are in `Model/ConvFlush.lean`. `--
 time (`ConvFlush.cpuViews`).
 
 Not modelled: unwinding from user stacks (no `user_regs` in generated records), jitdump / marker files,
-kernel modules, simpleperf tables, markers, counters, the per-CPU side of context switches (`Cpu::context_switch_data`,
+kernel modules, simpleperf tables, markers other than those of `handle_other_event_sample` (rss_stat,
+sched_switch markers of `--per-cpu-threads`, mmap markers), counters, the per-CPU side of context switches (`Cpu::context_switch_data`,
 idle samples, cpu deltas of the per-CPU copies: `--per-cpu-threads` is modelled only for recordings without
 switch records),
 frame categories, the JIT function recycler of `--reuse-threads` (perf maps and per-CPU threads are modelled
@@ -51,6 +52,10 @@ inductive Rec
   | switchOut (pid tid t : Nat)
   /-- SAMPLE of the event named `sched:sched_switch` (`handle_sched_switch_sample`) -/
   | sched (pid tid t : Nat) (kernelMode : Bool) (ip : Nat) (chain : List Nat)
+  /-- SAMPLE of an event that is neither the main event nor `sched:sched_switch` nor `kmem:rss_stat`
+  (import/perf.rs:209-228 ⇒ `handle_other_event_sample`, converter.rs:538-591): becomes a marker named after the
+  event with the sample's stack attached -/
+  | otherEvent (pid tid t : Nat) (kernelMode : Bool) (ip : Nat) (chain : List Nat)
 deriving Repr, DecidableEq
 
 /-- `OffCpuIndicator` (event_interpretation.rs:17) -/
@@ -156,6 +161,20 @@ inductive SFrame
   | ret (a : Nat) (kernel : Bool)
 deriving Repr, DecidableEq
 
+/-- `SampleOrMarker` of shared/unresolved_samples.rs:161 — the kind of a buffered item
+(`UnresolvedSampleOrMarker`). The code's `Sample` arm is split in two by a ghost distinction the flush never
+reads (it only asks `isMarker`): `recorded` = the item made from a main-event SAMPLE record itself,
+`offCpu` = a sample synthesized from an off-CPU group (`process_off_cpu_sample_group`);
+`marker` = `MarkerHandle(mh)`: a stack to be attached to an already added marker (`attach_stack_to_marker`). -/
+inductive ItemKind
+  | recorded
+  | offCpu
+  | marker
+deriving Repr, DecidableEq
+
+/-- `UnresolvedSampleOrMarker`: the fields common to both arms (`thread_handle`, `timestamp`, `timestamp_mono`,
+`stack`, `extra_label_frame` — the latter as `tlabel`, read only with `--per-cpu-threads`), the `SampleData` of
+the `Sample` arm (`cpu`, `weight`; 0 and unread for a marker item) and the arm itself (`kind`). -/
 structure USample where
   /-- thread entry (ThreadHandle) -/
   th : Nat
@@ -167,9 +186,8 @@ structure USample where
   cpu : Nat
   /-- `SampleData::weight` (an `i32`; never negative here) -/
   weight : Nat := 1
-  /-- true for the samples synthesized from an off-CPU group (`process_off_cpu_sample_group`); false for
-  the sample made from a SAMPLE record. Ghost: not read by the flush. -/
-  synth : Bool := false
+  /-- `sample_or_marker`; the flush reads only `kind = .marker` (which arm), the split recorded / offCpu is ghost -/
+  kind : ItemKind := .recorded
   /-- callee-most first, as `get_sample_stack` builds it -/
   stack : List SFrame
   /-- `thread.thread_label` at the time of the sample: the label frame of the per-CPU copies of this sample
@@ -180,6 +198,29 @@ structure USample where
   gpid : Nat := 0
   gtid : Nat := 0
 deriving Repr, DecidableEq
+
+/-- ghost: the item is **not** the sample made from a main-event SAMPLE record itself, i.e. it is a sample
+synthesized from an off-CPU group or a marker item. Not read by the flush. -/
+def USample.synth (u : USample) : Bool := u.kind != .recorded
+
+/-- `SampleOrMarker::MarkerHandle` -/
+def USample.marker (u : USample) : Bool := u.kind == .marker
+
+@[simp] theorem USample.synth_mk (th t tmono cpu weight : Nat) (kind : ItemKind) (stack : List SFrame)
+    (tlabel : String) (gpid gtid : Nat) :
+    (USample.mk th t tmono cpu weight kind stack tlabel gpid gtid).synth = (kind != .recorded) := rfl
+@[simp] theorem USample.marker_mk (th t tmono cpu weight : Nat) (kind : ItemKind) (stack : List SFrame)
+    (tlabel : String) (gpid gtid : Nat) :
+    (USample.mk th t tmono cpu weight kind stack tlabel gpid gtid).marker = (kind == .marker) := rfl
+@[simp] theorem ItemKind.recorded_bne : (ItemKind.recorded != ItemKind.recorded) = false := rfl
+@[simp] theorem ItemKind.offCpu_bne : (ItemKind.offCpu != ItemKind.recorded) = true := rfl
+@[simp] theorem ItemKind.marker_bne : (ItemKind.marker != ItemKind.recorded) = true := rfl
+@[simp] theorem ItemKind.recorded_beq : (ItemKind.recorded == ItemKind.marker) = false := rfl
+@[simp] theorem ItemKind.offCpu_beq : (ItemKind.offCpu == ItemKind.marker) = false := rfl
+@[simp] theorem ItemKind.marker_beq : (ItemKind.marker == ItemKind.marker) = true := rfl
+/-- a recorded sample is not a marker item -/
+theorem USample.marker_of_not_synth (u : USample) (h : u.synth = false) : u.marker = false := by
+  unfold USample.synth at h; unfold USample.marker; cases hk : u.kind <;> simp_all
 
 structure ThreadC where
   h : Nat
@@ -508,10 +549,10 @@ the end carries the other `count - 1` units and cpu delta 0. Both get `begin_tim
 def offCpuGroup (s : St) (th : Nat) (g : CS.Group) (cpuNs : Nat) (stack : List SFrame) (tlabel : String)
     (pid tid : Nat) : List USample :=
   let first : USample := { th, t := conv s g.begin_, tmono := g.begin_, cpu := cpuNs, weight := s.cfg.offWeight,
-                           synth := true, stack, tlabel, gpid := pid, gtid := tid }
+                           kind := .offCpu, stack, tlabel, gpid := pid, gtid := tid }
   if g.count > 1 then
     [first, { th, t := conv s g.end_, tmono := g.begin_, cpu := 0,
-              weight := i32OrZero (g.count - 1) * s.cfg.offWeight, synth := true, stack, tlabel,
+              weight := i32OrZero (g.count - 1) * s.cfg.offWeight, kind := .offCpu, stack, tlabel,
               gpid := pid, gtid := tid }]
   else [first]
 
@@ -560,6 +601,19 @@ def switchOutThread (s : St) (th : ThreadC) (t : Nat) : ThreadC × List USample 
 def schedThread (s : St) (th : ThreadC) (t : Nat) (stack : List SFrame) : ThreadC × List USample × Bool :=
   let th := { th with offStack := some (noKernel stack) }
   if s.cfg.offCpu == some .schedSwitchAndSamples then switchOutThread s th t else (th, [], true)
+
+/-- `UnresolvedSamples::attach_stack_to_marker` (unresolved_samples.rs:124-140): the pushed item -/
+def markerItem (s : St) (h pid tid t : Nat) (stack : List SFrame) : USample :=
+  { th := h, t := conv s t, tmono := t, cpu := 0, weight := 0, kind := .marker, stack, gpid := pid, gtid := tid }
+
+/-- `handle_other_event_sample` (converter.rs:538-591) after the lookups: the thread object is not touched
+(no `last_sample_timestamp`, no context-switch data, no off-CPU stack); `add_marker` on the thread's entry and
+`attach_stack_to_marker` (unresolved_samples.rs:124-140) push one marker item with the **whole** stack
+(`unresolved_stacks.convert`, kernel frames included), `extra_label_frame: None`, converted and raw timestamp.
+Never fails. -/
+def otherEventThread (s : St) (th : ThreadC) (pid tid t : Nat) (stack : List SFrame) :
+    ThreadC × List USample × Bool :=
+  (th, [markerItem s th.h pid tid t stack], true)
 
 /-- store the thread back, append the emitted samples to the process's buffer, record a panic -/
 def commitThread (s : St) (p : ProcC) (tid : Nat) (r : ThreadC × List USample × Bool) : St :=
@@ -615,6 +669,13 @@ def step (s : St) : Rec → St
     let (s, p) := getByPid s pid
     let (s, p, th) := getThread s p tid
     commitThread s p tid (schedThread s th t (sampleStack s.cfg km ip chain))
+  | .otherEvent pid tid t km ip chain =>
+    -- converter.rs:548 `get_by_pid`, :565-574 `get_thread_by_tid` (tid 0 is not special; the record always
+    -- carries a tid: the `None => main_thread` arm needs a sample type without PERF_SAMPLE_TID), :576-590 marker +
+    -- attached stack; `current_sample_time` is not updated (only `handle_main_event_sample` does, :251)
+    let (s, p) := getByPid s pid
+    let (s, p, th) := getThread s p tid
+    commitThread s p tid (otherEventThread s th pid tid t (sampleStack s.cfg km ip chain))
   | .fork pid tid ppid ptid t =>
     let start := conv s t
     let (s, parent) := getByPid s ppid
